@@ -24,19 +24,19 @@ open MdsVerif.Model MdsVerif.Spec MdsVerif.Proofs
 /-- `LeadingZeroes` = byte-by-byte count, no out-of-slice access, for every slice -/
 theorem C20_leadingZeroes (d : List UInt8) : Mbits.leadingZeroes d = .ok (Bytes.lzCount d) := by
   have := Mbits.lzWords_spec d (d.length + 1) 0 (by omega) (by omega) (by omega)
-  simpa [Mbits.leadingZeroes] using this
+  simpa [Mbits.leadingZeroes_def] using this
 
 /-- `TrailingZeroes` = byte-by-byte count from the end, no out-of-slice access (in particular no
 negative index), for every slice -/
 theorem C20_trailingZeroes (d : List UInt8) : Mbits.trailingZeroes d = .ok (Bytes.tzCount d) := by
   have := Mbits.tzWords_spec d (d.length + 1) d.length 0 ((d.length : Int) - 8) rfl (by omega) rfl (by omega)
-  simpa [Mbits.trailingZeroes] using this
+  simpa [Mbits.trailingZeroes_def] using this
 
 /-- `Zero` returns `len(data)` and leaves exactly `len(data)` zero bytes; every write is inside the slice -/
 theorem C20_zero (d : List UInt8) : Mbits.zero d = .ok (d.length, Bytes.zeroed d) := by
   have := Mbits.zWords_spec (d.length + 1) 0 d (by omega) (by simp) (by omega)
   simp only [List.replicate_zero, List.nil_append, Nat.zero_add] at this
-  simp [Mbits.zero, this, Bytes.zeroed]
+  simp [Mbits.zero_def, this, Bytes.zeroed]
 
 /-- memory safety on its own: no function ever leaves the slice or runs out of fuel -/
 theorem C20_mbits_safe (d : List UInt8) :
@@ -87,18 +87,18 @@ A negative `n` panics in `s[:n]` (modelled; outside the property's quantifier).
 
 theorem C20_trunc_negative (s : List UInt8) (n : Int) (hn : n < 0) : Mstr.trunc s n = .bounds := by
   have : ¬ (n ≥ (s.length : Int)) := by omega
-  simp [Mstr.trunc, this, hn]
+  simp [Trunc.trunc_def, this, hn]
 
 /-- prefix, length ≤ n, identity for n ≥ len; no panic — every byte string, every n ≥ 0 -/
 theorem C20_trunc_prefix (s : List UInt8) (n : Int) (hn : 0 ≤ n) :
     ∃ r, Mstr.trunc s n = .ok r ∧ r <+: s ∧ (r.length : Int) ≤ n ∧ (n ≥ s.length → r = s) := by
   by_cases hge : n ≥ (s.length : Int)
-  · exact ⟨s, by simp [Mstr.trunc, hge], List.prefix_refl s, by omega, fun _ => rfl⟩
+  · exact ⟨s, by simp [Trunc.trunc_def, hge], List.prefix_refl s, by omega, fun _ => rfl⟩
   · obtain ⟨k, hk1, hk2⟩ := Trunc.cut_le s n.toNat (by omega)
     have hn0 : ¬ n < 0 := by omega
     have hks : k ≤ s.length := by omega
     refine ⟨s.take k, ?_, List.take_prefix k s, ?_, fun h => absurd h hge⟩
-    · simp [Mstr.trunc, hge, hn0, hk1, Mstr.slicePrefix, hks]
+    · simp [Trunc.trunc_def, hge, hn0, hk1, Mstr.slicePrefix, hks]
     · rw [List.length_take]; omega
 
 /-- on a concatenation of characters the result is a concatenation of the first `j` of them,
@@ -107,7 +107,7 @@ theorem C20_trunc_chars (cs : List (List UInt8)) (h : ∀ c ∈ cs, Trunc.IsChar
     ∃ j, Mstr.trunc cs.flatten n = .ok (cs.take j).flatten ∧
       (n < cs.flatten.length → n ≤ ((cs.take j).flatten.length : Int) + 4) := by
   by_cases hge : n ≥ (cs.flatten.length : Int)
-  · exact ⟨cs.length, by simp [-List.length_flatten, Mstr.trunc, hge], fun h => by omega⟩
+  · exact ⟨cs.length, by simp [-List.length_flatten, Trunc.trunc_def, hge], fun h => by omega⟩
   · obtain ⟨j, hj1, hj2, hj3⟩ := Trunc.cut_chars cs h n.toNat (by omega)
     have hn0 : ¬ n < 0 := by omega
     have hle := Trunc.flatten_take_length_le cs j
@@ -115,7 +115,7 @@ theorem C20_trunc_chars (cs : List (List UInt8)) (h : ∀ c ∈ cs, Trunc.IsChar
       conv => lhs; arg 2; rw [← List.take_append_drop j cs, List.flatten_append]
       exact List.take_left' rfl
     refine ⟨j, ?_, fun _ => by omega⟩
-    simp [-List.length_flatten, Mstr.trunc, hge, hn0, hj1, Mstr.slicePrefix, hle, htake]
+    simp [-List.length_flatten, Trunc.trunc_def, hge, hn0, hj1, Mstr.slicePrefix, hle, htake]
 
 /-- well-formed UTF-8 stays well-formed, and loses at most one encoded character (4 bytes) below `n` -/
 theorem C20_trunc_valid (s : List UInt8) (n : Int) (hn : 0 ≤ n) (hv : Bytes.validUTF8 s = true) :
@@ -231,5 +231,50 @@ theorem overflow_witness :
     Bytes.natCompare [0x31,0x38,0x34,0x34,0x36,0x37,0x34,0x34,0x30,0x37,0x33,0x37,0x30,0x39,0x35,0x35,0x31,0x36,0x31,0x36] [0x30]
       = 1 := by
   constructor <;> decide
+
+/-! ## the regenerated facts -/
+
+/-- **C20_current.**  The facts regenerated from `mbits/mbits.go` and `mstr/mstr.go` (`Gen.Small`, written
+by `extract/small.go` on every run) are the pinned ones, and the extractor recognised the statement
+skeleton of `Zero`, `LeadingZeroes`, `TrailingZeroes`, `Trunc`, `isDigit`, `parseInt`, `parseStr` and
+`CompareNatural`: the chunk boundaries `n &^ 7` / `n - n&^7`, the 8-byte strides, the loop tests, the
+`n-8` start and the `i+7` of `TrailingZeroes`; `Trunc`'s `n >= len(s)`, its `n > 0` guards, `n-1` indices
+and the masks `&0xc0 == 0x80` / `&0xc0 == 0xc0`; the digit bounds `'0'..'9'`, the `'0'` and `v*10 + d` of
+`parseInt` and its `i > 0`.  `Model.Mbits`/`Model.Mstr` are built from these definitions, so the theorems
+above are about the constants that are in the source now; a one-token change in any of them changes
+`Gen/Small.lean`, and this theorem (and the `*_succ`/`*_def` lemmas through which the proofs unfold the
+models) no longer compile.  (`n &^ 7` is printed as `n - (n &&& 7)`.) -/
+theorem C20_current :
+    MdsVerif.Gen.Small.recognised = true ∧
+    -- mbits.Zero
+    (∀ n, Gen.Small.zeroChunkEnd n = n - (n &&& 7)) ∧
+    (∀ i m, Gen.Small.zeroWordCond i m = decide (i < m)) ∧ Gen.Small.zeroStride = 8 ∧
+    (∀ i n, Gen.Small.zeroTailCond i n = decide (i < n)) ∧
+    -- mbits.LeadingZeroes
+    (∀ n, Gen.Small.lzChunkEnd n = n - (n &&& 7)) ∧
+    (∀ i m, Gen.Small.lzWordCond i m = decide (i < m)) ∧ Gen.Small.lzStride = 8 ∧
+    (∀ i n, Gen.Small.lzTailCond i n = decide (i < n)) ∧
+    -- mbits.TrailingZeroes
+    (∀ n, Gen.Small.tzRagged n = n - (n - (n &&& 7))) ∧
+    (∀ n, Gen.Small.tzStart n = n - 8) ∧
+    (∀ i m, Gen.Small.tzWordCond i m = decide (i ≥ m)) ∧ Gen.Small.tzStride = 8 ∧
+    (∀ i, Gen.Small.tzWordLast i = i + 7) ∧ Gen.Small.tzCountInc = 8 ∧
+    (∀ m, Gen.Small.tzTailCond m = decide (m ≥ 0)) ∧
+    -- mstr.Trunc
+    (∀ n len, Gen.Small.truncWhole n len = decide (n ≥ len)) ∧
+    (∀ n, Gen.Small.truncContGuard n = decide (n > 0)) ∧ (∀ n, Gen.Small.truncContIdx n = n - 1) ∧
+    (∀ b, Gen.Small.truncIsCont b = decide (b &&& 0xc0 = 0x80)) ∧
+    (∀ n, Gen.Small.truncLeadGuard n = decide (n > 0)) ∧ (∀ n, Gen.Small.truncLeadIdx n = n - 1) ∧
+    (∀ b, Gen.Small.truncIsLead b = decide (b &&& 0xc0 = 0xc0)) ∧
+    -- mstr.CompareNatural
+    (∀ b, Gen.Small.isDigit b = (decide (b ≥ 0x30) && decide (b ≤ 0x39))) ∧
+    Gen.Small.digitZero = 0x30 ∧
+    (∀ v d, Gen.Small.parseIntStep v d = v * 10 + d) ∧
+    (∀ i, Gen.Small.parseIntOk i = decide (i > 0)) :=
+  ⟨rfl, fun _ => rfl, fun _ _ => rfl, rfl, fun _ _ => rfl,
+   fun _ => rfl, fun _ _ => rfl, rfl, fun _ _ => rfl,
+   fun _ => rfl, fun _ => rfl, fun _ _ => rfl, rfl, fun _ => rfl, rfl, fun _ => rfl,
+   fun _ _ => rfl, fun _ => rfl, fun _ => rfl, fun _ => rfl, fun _ => rfl, fun _ => rfl, fun _ => rfl,
+   fun _ => rfl, rfl, fun _ _ => rfl, fun _ => rfl⟩
 
 end MdsVerif.Props.C20
